@@ -5,7 +5,7 @@ from fractions import Fraction as F
 
 import numpy as np
 
-from . import common as C, nnm
+from . import common as C, nnm, genarith
 
 ANCHORS = nnm.ANCHORS
 ATOL = 2.0 ** -51
@@ -144,6 +144,7 @@ def conv_cases(rng, n):
 
 
 def run(ctx, res):
+    genarith.regenerate(ctx.pid, "nnm", res)   # regenerated tie: lam_to_eta, eta_to_lam, optimal_comparison
     cases, cr = nnm.run_corr(ctx.pid, ctx.rng, ctx.n(900, 12000), maxlen=ctx.n(12, 14))
     res.corr.append(("NonnegMean.test/estim/bet vs NNM.run_test", cr, nnm.case_json))
     cc = conv_cases(ctx.rng, ctx.n(300, 3000))
